@@ -221,6 +221,31 @@ def r9_emit_total(c, facts, rule='C04.R9'):
                         if b['k'] == 'call' and variant_of(b['f']) == 'Some':
                             sv |= vs
                     some_sets[fn.id] = sv
+    # partiality propagates to a caller that hands its own parameter on without narrowing it (a dispatch split off into
+    # a helper: `value_schema(s)` -> `expr_schema(&s.expr)`): the obligation then lies with that caller's callers
+    passthrough = set()
+    changed = True
+    while changed:
+        changed = False
+        for fid, pv in list(partial.items()):
+            for g in facts.fns.values():
+                if g.crate != 'oal_openapi' or not g.hir or g.id == fid:
+                    continue
+                gctx = None
+                for e, anc in hir_walk(g.hir['body']):
+                    if e['k'] not in ('call', 'mcall') or callee_id(e) != fid or not e['args']:
+                        continue
+                    gctx = gctx or FnCtx(g)
+                    a = e['args'][-1]
+                    while a['k'] in ('addr', 'unary', 'field'):
+                        a = a['e'] if a['k'] != 'field' else a['base']
+                    src = gctx.local_src(a) if a['k'] == 'path' else None
+                    narrowed = any((lab[0] in ('then', 'else') and lab[1]['cond']['k'] == 'let' and 'SchemaExpr' in lab[1]['cond']['init']['ty']) or (lab[0] == 'arm' and 'SchemaExpr' in lab[2]['scrut']['ty']) for _, lab in anc)
+                    if src and src[0] == 'param' and not narrowed:
+                        passthrough.add((g.id, fid, e['ln']))
+                        if not pv <= partial.get(g.id, set()):
+                            partial.setdefault(g.id, set()).update(pv)
+                            changed = True
     n = 0
     for fid, pv in sorted(partial.items(), key=lambda x: facts.fns[x[0]].qname):
         F_ = facts.fns[fid]
@@ -230,6 +255,9 @@ def r9_emit_total(c, facts, rule='C04.R9'):
             ctx = None
             for e, anc in hir_walk(g.hir['body']):
                 if e['k'] not in ('call', 'mcall') or callee_id(e) != fid:
+                    continue
+                if (g.id, fid, e['ln']) in passthrough:
+                    c.ok(R, {'callee': F_.qname, 'caller': g.qname, 'line': e['ln'], 'note': 'hands its own parameter on: partial in the same variants, checked at its callers'})
                     continue
                 n += 1
                 ctx = ctx or FnCtx(g)
